@@ -3,6 +3,7 @@ package harness
 import (
 	"fmt"
 	"math/rand"
+	"strings"
 )
 
 // GenPause: one service; deploy, then a random sequential history of pause /
@@ -365,6 +366,78 @@ func GenHealth(seed int64, idx int, tier string) *Plan {
 			c2 = append(c2, Req{ID: fmt.Sprintf("q%d", i+1), Svc: "A", Host: "a.test", Path: "/x", Kind: "plain", After: "c1", WaitMs: offGrid(rng, 10, 2500)})
 		}
 		p.Clients = append(p.Clients, c2)
+	}
+	return p
+}
+
+// GenSnap: commands of every kind on two services, some overlapping from a second lane; the state file is
+// observed at every step of every snapshot write and at every return. Serves C12.
+func GenSnap(seed int64, idx int, tier string) *Plan {
+	rng := rand.New(rand.NewSource(seed*11000027 + int64(idx)))
+	p := &Plan{Family: "snap", Seed: seed*11000027 + int64(idx), Targets: map[string]TargetScript{}, QuantumMs: 100, SettleMs: 3000,
+		SnapObs: true, Burst: true}
+	p.Urgent = rng.Intn(2) == 0
+	pickSched(rng, p)
+	if rng.Intn(2) == 0 {
+		p.SnapSpin = 300 + rng.Intn(1500)
+		p.BurstEvery = 2
+	}
+	tn, cn := 0, 0
+	newTarget := func() string {
+		tn++
+		t := fmt.Sprintf("t%d", tn)
+		p.Targets[t] = probeScriptHealthy(rng)
+		return t
+	}
+	mk := func(svc string) Cmd {
+		cn++
+		c := Cmd{ID: fmt.Sprintf("c%d", cn), Svc: svc}
+		switch rng.Intn(9) {
+		case 0, 1:
+			c.Kind = "deploy"
+			c.Hosts = []string{strings.ToLower(svc) + ".test"}
+			c.Targets = []string{newTarget()}
+			c.DeployTimeoutMs, c.DrainTimeoutMs = 2000, 500
+		case 2:
+			c.Kind = "rollout_deploy"
+			c.Targets = []string{newTarget()}
+			c.DeployTimeoutMs, c.DrainTimeoutMs = 2000, 500
+		case 3:
+			c.Kind, c.Pct, c.Allow = "rollout_set", rng.Intn(101), []string{"vip"}
+		case 4:
+			c.Kind = "rollout_stop"
+		case 5:
+			c.Kind, c.DrainTimeoutMs, c.MaxPauseMs = "pause", 500, 2000
+		case 6:
+			c.Kind, c.DrainTimeoutMs, c.Msg = "stop", 500, "back soon"
+		case 7:
+			c.Kind = "resume"
+		default:
+			c.Kind = "remove"
+		}
+		return c
+	}
+	first := func(svc string) Cmd {
+		cn++
+		return Cmd{ID: fmt.Sprintf("c%d", cn), Kind: "deploy", Svc: svc, Hosts: []string{strings.ToLower(svc) + ".test"}, Targets: []string{newTarget()},
+			DeployTimeoutMs: 2000, DrainTimeoutMs: 500}
+	}
+	laneA := []Cmd{first("A")}
+	laneB := []Cmd{first("B")}
+	for i := 0; i < 2+rng.Intn(4); i++ {
+		laneA = append(laneA, mk("A"))
+	}
+	for i := 0; i < 2+rng.Intn(4); i++ {
+		c := mk("B")
+		if rng.Intn(4) == 0 {
+			c.Svc = "A" // commands on the same service from both lanes
+		}
+		laneB = append(laneB, c)
+	}
+	if rng.Intn(3) == 0 { // strictly sequential history: one lane
+		p.Lanes = [][]Cmd{append(laneA, laneB...)}
+	} else {
+		p.Lanes = [][]Cmd{laneA, laneB}
 	}
 	return p
 }
